@@ -8,7 +8,10 @@ import z3
 from . import bridge as bridge_mod
 from . import driver
 from .checks_common import generic_replay
-from .refext import reference, ug_info
+from .refext import closure, reference, replace_placeholders, ug_info
+from . import stable as st
+from .c04 import asp_constants
+from .sem import Ctx, free_vars
 from .sem import asp_preds, fol_preds, fol_size
 from .sexp import Q, render
 from .tasks import *
@@ -56,6 +59,21 @@ TASKS = [
      'input: q/1. output: p/1.'),
 ]
 
+# tasks that a correct anthem refuses (private recursion, non-tight program, private choice): skipped on a correct tree;
+# if a precondition is silently not enforced the behavioural link below decides whether the emitted problems still mean
+# what the property says
+REFUSABLE = [
+    ('refusable-private-negative-loop-left', 'program', 'switch :- not switch. q(X) :- p(X), not switch.', 'q(X) :- p(X).', 'input: p/1. output: q/1.'),
+    ('refusable-private-negative-loop-right', 'program', 'q(X) :- p(X).', 'switch :- not switch. q(X) :- p(X), not switch.', 'input: p/1. output: q/1.'),
+    ('refusable-private-positive-loop-left', 'program', 'r(X) :- r(X). q(X) :- p(X), not r(X).', 'q(X) :- p(X).', 'input: p/1. output: q/1.'),
+    ('refusable-private-positive-loop-right', 'program', 'q(X) :- p(X).', 'r(X) :- r(X), p(X). q(X) :- p(X), not r(X).', 'input: p/1. output: q/1.'),
+    ('refusable-private-even-loop', 'program', 'a :- not b. b :- not a. q(X) :- p(X), a.', 'q(X) :- p(X).', 'input: p/1. output: q/1.'),
+    ('refusable-private-choice', 'program', '{r(X)} :- p(X). q(X) :- r(X).', 'q(X) :- p(X).', 'input: p/1. output: q/1.'),
+    ('refusable-non-tight-public', 'program', 'q(X) :- q(X). q(X) :- p(X).', 'q(X) :- p(X).', 'input: p/1. output: q/1.'),
+    ('refusable-non-tight-public-right', 'program', 'q(X) :- p(X).', 'q(X) :- t(X). t(X) :- q(X). q(X) :- p(X).', 'input: p/1. output: q/1. output: t/1.'),
+    ('refusable-input-in-head', 'program', 'p(a). q(X) :- p(X).', 'q(X) :- p(X).', 'input: p/1. output: q/1.'),
+]
+
 
 def example_tasks():
     out = []
@@ -81,6 +99,9 @@ def example_tasks():
 def generate(tier, seed):
     items = []
     for (s, e) in FLAGS:
+        for t in REFUSABLE:
+            if (s, e) in ((True, True), (False, False)):
+                items.append({'family': 'refusable-tasks', 'task': t, 'flags': (s, e), 'label': '%s simplify=%s eq-break=%s' % (t[0], s, e)})
         for t in TASKS:
             items.append({'family': 'hand-tasks', 'task': t, 'flags': (s, e), 'label': '%s simplify=%s eq-break=%s' % (t[0], s, e)})
         for t in example_tasks():
@@ -123,6 +144,112 @@ def real_predmap(ctx, table):
             return ctx.pred('R:' + table[(name, arity)][0], arity)
         return ctx.pred(name, arity)
     return predmap
+
+
+def behaviour_link(kind, left_tree, right_tree, ug_tree, probs, d, aliases, left_private, right_private, public,
+                   inputs, timeout_ms):
+    """Finite-structure re-check of the link between the emitted problems and external behaviour (program vs program,
+    arithmetic-free, no placeholders): over the universe D = constants + 2 symbolic elements,
+      (exists extents of the conclusion side's private predicates: I refutes an emitted problem of direction d)
+      <->  I satisfies the user-guide assumptions, its premise-side part is a stable model of the premise-side program
+           with I's input facts, and NO choice of private extents makes its public part a stable model of the
+           conclusion-side program.
+    Returns [(name, solver result)] or None when the task is outside the fragment."""
+    if kind != 'program':
+        return None
+    inputs_l, outputs_l, placeholders, assumptions, _ = ug_info(ug_tree)
+    if placeholders:
+        return None
+    cl, cr = asp_constants(left_tree), asp_constants(right_tree)
+    if cl is None or cr is None:
+        return None
+    if any(free_vars(a[4]) for a in assumptions):
+        return None
+    prem_tree, concl_tree = (left_tree, right_tree) if d == 'forward' else (right_tree, left_tree)
+    prem_priv, concl_priv = (left_private, right_private) if d == 'forward' else (right_private, left_private)
+    prem_is_right = d != 'forward'
+    table = renamed_names(probs, left_private, right_private, public)      # real name -> original right-private
+    inv = {v: k for k, v in table.items()}
+    prem_preds = sorted(asp_preds(prem_tree))
+    concl_preds = sorted(asp_preds(concl_tree))
+    inputs = set(inputs)
+    out = []
+
+    def mk():
+        ctx = AliasCtx(aliases)
+        dom = [ctx.gval_pkg(c, {})[2] for c in sorted(cl | cr)]
+        dom += [ctx.const('dom', 'e1', 'g'), ctx.const('dom', 'e2', 'g')]
+        ctx.finite_domain = dom
+        return ctx, dom
+    ctx, dom = mk()
+    nat = sum(len(dom) ** a for (_, a) in concl_priv) + sum(len(dom) ** a for (_, a) in concl_preds if (_, a) not in inputs)
+    if nat > 48:
+        return None
+
+    def side_interp(ctx, preds, priv, side_tag, priv_bools=None):
+        """(name, arity) -> callable for one side: public predicates shared, private ones per side."""
+        m = {}
+        for (n, a) in preds:
+            if (n, a) in priv:
+                if priv_bools is not None:
+                    m[(n, a)] = st.bool_extent(ctx.finite_domain, a, priv_bools[(n, a)])
+                else:
+                    m[(n, a)] = ctx.pred('%s:%s' % (side_tag, n), a)
+            else:
+                m[(n, a)] = ctx.pred(n, a)
+        return m
+
+    def real_map(ctx, prem_i, concl_i):
+        left_i, right_i = (prem_i, concl_i) if d == 'forward' else (concl_i, prem_i)
+
+        def predmap(name, arity, world):
+            if (name, arity) in table:
+                return right_i.get(table[(name, arity)], ctx.pred('unmapped:' + name, arity))
+            if (name, arity) in left_private and (name, arity) in left_i:
+                return left_i[(name, arity)]
+            if (name, arity) in right_private and (name, arity) not in left_private and (name, arity) in right_i:
+                return right_i[(name, arity)]
+            return ctx.pred(name, arity)
+        return predmap
+
+    def ug_holds(ctx):
+        return z3.And(*[ctx.cl(a[4]) for a in assumptions]) if assumptions else z3.BoolVal(True)
+
+    try:
+        # ---- query 1: some interpretation refutes an emitted problem but witnesses no behavioural difference
+        ctx, dom = mk()
+        prem_i = side_interp(ctx, prem_preds, prem_priv, 'P')
+        concl_i = side_interp(ctx, concl_preds, concl_priv, 'C')
+        ref_real = refutation(ctx, probs, real_map(ctx, prem_i, concl_i))
+        stable_p = st.is_stable(ctx, prem_tree, prem_preds, inputs, prem_i, 'p')
+        cb = {p: st.fresh_bools('C2', p[0], p[1], dom) for p in concl_priv}
+        concl_i2 = side_interp(ctx, concl_preds, concl_priv, 'C', cb)
+        stable_c = st.is_stable(ctx, concl_tree, concl_preds, inputs, concl_i2, 'c')
+        cvars = [b for dd in cb.values() for b in dd.values()]
+        producible = z3.Exists(cvars, stable_c) if cvars else stable_c
+        side = ctx.order_axioms() + ctx.symbol_facts()
+        q1 = side + [ref_real, z3.Or(z3.Not(ug_holds(ctx)), z3.Not(stable_p), producible)]
+        out.append(('refuted-without-behavioural-difference', driver.solve(q1, timeout_ms)))
+        # ---- query 2: a behavioural difference that no emitted problem is refuted by, whatever the private extents
+        ctx, dom = mk()
+        prem_i = side_interp(ctx, prem_preds, prem_priv, 'P')
+        stable_p = st.is_stable(ctx, prem_tree, prem_preds, inputs, prem_i, 'p')
+        cb = {p: st.fresh_bools('C2', p[0], p[1], dom) for p in concl_priv}
+        concl_i2 = side_interp(ctx, concl_preds, concl_priv, 'C', cb)
+        stable_c = st.is_stable(ctx, concl_tree, concl_preds, inputs, concl_i2, 'c')
+        cvars = [b for dd in cb.values() for b in dd.values()]
+        not_producible = z3.ForAll(cvars, z3.Not(stable_c)) if cvars else z3.Not(stable_c)
+        cb3 = {p: st.fresh_bools('C3', p[0], p[1], dom) for p in concl_priv}
+        concl_i3 = side_interp(ctx, concl_preds, concl_priv, 'C', cb3)
+        ref_real3 = refutation(ctx, probs, real_map(ctx, prem_i, concl_i3))
+        c3vars = [b for dd in cb3.values() for b in dd.values()]
+        never_refuted = z3.ForAll(c3vars, z3.Not(ref_real3)) if c3vars else z3.Not(ref_real3)
+        side = ctx.order_axioms() + ctx.symbol_facts()
+        q2 = side + [ug_holds(ctx), stable_p, not_producible, never_refuted]
+        out.append(('behavioural-difference-not-refuted', driver.solve(q2, timeout_ms)))
+    except ValueError as e:
+        return None
+    return out
 
 
 def check_item(item):
@@ -222,6 +349,25 @@ def check_item(item):
             elif res['verdict'] == 'unknown':
                 r['detail'] = res.get('reason')
             out.append(r)
+            # (b) behavioural link on a finite structure
+            if (dec, simp, eqb) in (('independent', True, True), ('independent', False, False)) and not item.get('twin'):
+                link = behaviour_link(kind, left_tree, right_tree, ug_tree, probs, d, aliases, left_private, right_private,
+                                      public, inputs, item.get('link_timeout_ms', 30000))
+                if link:
+                    for lname, rr in link:
+                        r2 = dict(base)
+                        r2.update(key=label + '#' + d + '#' + lname, family='behavioural-link', nontrivial=True,
+                                  input='%s %s [%s]' % (label, d, lname),
+                                  obligation='finite structure (constants + 2 symbolic elements): no interpretation with: ' + lname.replace('-', ' '),
+                                  verdict=rr['verdict'], ms=rr['ms'])
+                        if rr['verdict'] == 'sat':
+                            r2['signature'] = 'behavioural-link:' + lname
+                            r2['detail'] = 'task %s: %s || %s || %s ; witness: %s' % (name, left[:200], right[:200], ug[:120],
+                                                                                     driver.model_text(rr['model'], 1200))
+                            r2['replay'] = {'request': render(req), 'expected': render(resp), 'smt2': rr['smt2']}
+                        elif rr['verdict'] == 'unknown':
+                            r2['detail'] = rr.get('reason')
+                        out.append(r2)
     if item.get('twin'):
         return [r for r in out if r.get('verdict') in ('sat', 'unsat', 'unknown')][:1]
     return out
